@@ -602,9 +602,13 @@ def run_history(case):
             f = rig.drain()
         if f:
             clause, detail, extra = f
-            nb = bytes(rig.model.bytes[:2])
+            # the listed finding C08-esc-then-non-ascii: the pending bytes begin with a key prefix (ESC, ESC ESC, ESC [, ...) that is
+            # immediately followed by a non-ASCII byte
+            from curtsies.events import KEYMAP_PREFIXES
+            nb = bytes(rig.model.bytes[:10])
+            prefix_then_nonascii = any(nb[:k] in KEYMAP_PREFIXES and nb[k] >= 0x80 for k in range(1, len(nb)))
             extra = dict(extra, equal_times=rig.model.equal_times(), read_ended_mid_char=bool(rig.read_mid_char),
-                         split=case.get("split", ""), esc_then_nonascii=(len(nb) == 2 and nb[0] == 0x1B and nb[1] >= 0x80))
+                         split=case.get("split", ""), esc_then_nonascii=prefix_then_nonascii)
             return [(clause, detail, extra)], rig.evaluated_requests
         return [], rig.evaluated_requests
 
